@@ -11,7 +11,7 @@ RULE = ("per case a sequence of generated distributions is evaluated in ONE proc
         "unchanged and returns a new rng state, reset(k) replays identical samples (eager and sample_pure under jit), quantile monotone on a grid, "
         "Deterministic == loc, Normal vs scipy ndtr within 1e-5, mixture cdf(quantile(q)) within the grid-resolution bound, node/connection "
         "default delay == quantile(0.99) >= 0; estimator: weights sum to 1, scales > 0, means inside the data scale, rescaling the data by c "
-        "rescales means/scales by c, constant data of size n in {1,2,20} -> Deterministic(mean); one evaluation = one distribution or one "
+        "rescales means/scales by c, constant data of size n in {1,2,20,100} and magnitudes from 0 to 2000 -> Deterministic(mean); one evaluation = one distribution or one "
         "estimator data set; non-trivial = stochastic distribution (sigma > 0) or non-constant data; distinct by parameter digest")
 MIN_NONTRIVIAL = {"quick": 150, "thorough": 4000}
 DECIDING = ["samples_checked", "quantiles_checked"]
@@ -213,11 +213,12 @@ def run_case(case):
     for j in range(case.get("n_est", 2)):
         st = Counter()
         V = []
-        kindd = rnd.choice(["const1", "const2", "const20", "noisy", "noisy", "bimodal"])
+        kindd = rnd.choice(["const1", "const2", "const20", "const100", "noisy", "noisy", "bimodal"])
         scale_t = rnd.choice([0.001, 0.01, 1.0])
         if kindd.startswith("const"):
             nn = int(kindd[5:])
-            val = round(rnd.choice([0.0, rnd.uniform(0, 1) * scale_t]), 6)
+            # constant data of any magnitude (delays logged in s, ms or us): 0, small, and values >= 1 where float32 rounding of the mean matters
+            val = round(rnd.choice([0.0, rnd.uniform(0, 1) * scale_t, rnd.uniform(1, 20), rnd.uniform(20, 2000)]), 6)
             data = onp.ones(nn) * val
         elif kindd == "noisy":
             data = onp.clip(nrng.normal(1.0, 0.3, rnd.choice([20, 60])) * scale_t, 0, None)
